@@ -1,14 +1,14 @@
 package main
 
 import (
-	sqlite3 "github.com/mattn/go-sqlite3"
-	"time"
 	"database/sql"
 	"fmt"
+	sqlite3 "github.com/mattn/go-sqlite3"
 	"math"
 	"reflect"
 	"sort"
 	"strings"
+	"time"
 
 	"verifharness/fw"
 
